@@ -2000,3 +2000,10 @@ def byc_plot_summary_logged(E, args, node):
     bound = bind_params(E, 'bycycle.plts.burst.plot_burst_detect_summary', args, node)
     E.st.calls.append(('bycycle.plts.burst.plot_burst_detect_summary', bound, None))
     return None
+
+
+@method('Opaque.axvspan')
+def ax_axvspan(E, ax, args, node):
+    """matplotlib Axes.axvspan on an opaque drawing surface: external, nothing assumed; logged as ghost state"""
+    E.st.calls.append(('matplotlib.axes.Axes.axvspan', {'xmin': args.get(0, 'xmin'), 'xmax': args.get(1, 'xmax')}, None))
+    return None
